@@ -157,8 +157,6 @@ Lemma load_records_Some sensors k raw rows :
   NoDup (map (rkey k) rows).
 Proof.
   unfold load_records.
-  destruct (match k with RGnss => negb (existsb (fun s => eqb (snd s) "gnss") sensors) | _ => false end);
-    [discriminate|].
   intros [= <-].
   set (ok := fun r : row => memb (rsensor r, sensor_kind_of k) sensors).
   assert (OK : forall r, ok r = true <-> resolves sensors k r) by (intros r; unfold ok, resolves; apply memb_In).
@@ -174,19 +172,6 @@ Proof.
     rewrite filter_app. cbn. apply OK in R. rewrite R.
     apply live_last. intros y Iy. apply filter_In in Iy. destruct Iy as [Iy Oy]. apply L; [exact Iy | apply OK; exact Oy].
   - apply live_NoDup.
-Qed.
-
-Lemma load_records_None sensors k raw :
-  load_records sensors k (Some raw) = None ->
-  k = RGnss /\ (forall s, In s sensors -> snd s <> "gnss") /\ (forall row, ~ resolves sensors k row).
-Proof.
-  unfold load_records. destruct k; try discriminate.
-  destruct (existsb (fun s => eqb (snd s) "gnss") sensors) eqn:E; [discriminate|]. intros _.
-  assert (N : forall s, In s sensors -> snd s <> "gnss").
-  { intros s I Es. assert (T : existsb (fun s => eqb (snd s) "gnss") sensors = true).
-    { apply existsb_exists. exists s; split; [exact I | apply eqb_eq; exact Es]. }
-    congruence. }
-  repeat split; [exact N|]. intros row R. exact (N _ R eq_refl).
 Qed.
 
 Lemma load_feat_In images raw l t imgs :
@@ -437,20 +422,16 @@ Section SensorsSide.
 
   Lemma complete_records k raw :
     r_records r k = Some raw ->
-    (exists rows, d_records d k = Some rows /\
+    exists rows, d_records d k = Some rows /\
        (forall row, In row rows -> In row raw /\ resolves (d_sensors d) k row) /\
        (forall row, In row raw -> resolves (d_sensors d) k row ->
           exists row', In row' rows /\ rkey k row' = rkey k row /\ resolves (d_sensors d) k row') /\
        (forall l1 row l2, raw = l1 ++ row :: l2 -> resolves (d_sensors d) k row ->
           (forall y, In y l2 -> resolves (d_sensors d) k y -> rkey k y <> rkey k row) -> In row rows) /\
-       NoDup (map (rkey k) rows))
-    \/ (k = RGnss /\ d_records d k = None /\ (forall s, In s (d_sensors d) -> snd s <> "gnss") /\
-        forall row, ~ resolves (d_sensors d) k row).
+       NoDup (map (rkey k) rows).
   Proof.
     intros E. pose proof (ss_records _ _ S k) as D. rewrite E in D.
-    destruct (d_records d k) as [rows|].
-    - left. exists rows; split; [reflexivity|]. symmetry in D. exact (load_records_Some _ _ _ _ D).
-    - right. symmetry in D. destruct (load_records_None _ _ _ D) as [A [B C]]. auto.
+    eexists; split; [exact D|]. exact (load_records_Some _ _ _ _ eq_refl).
   Qed.
 
   (* with unique keys in the file, a records part is exactly the rows whose sensor resolves *)
@@ -458,7 +439,7 @@ Section SensorsSide.
     r_records r k = Some raw -> d_records d k = Some rows -> NoDup (map (rkey k) raw) ->
     forall row, In row rows <-> In row raw /\ resolves (d_sensors d) k row.
   Proof.
-    intros E D N row. destruct (complete_records k raw E) as [[rows' [D' [A [_ [C _]]]]]|[_ [D' _]]]; [|congruence].
+    intros E D N row. destruct (complete_records k raw E) as [rows' [D' [A [_ [C _]]]]].
     assert (rows' = rows) by congruence. subst rows'.
     split; [apply A|]. intros [I R].
     apply in_split in I. destruct I as [l1 [l2 ->]].
